@@ -61,6 +61,13 @@ Definition op_reset_leaves (l : list Z) : list Z :=
 Definition op_env (l : list Z) : list Z :=
   run (do e <- pgridworld; do debug <- pbool; do ops <- plist piop; do tape <- ptape; pret (e, debug, ops, tape))
       (fun '(e, debug, ops, tape) => eoutcome (elist (eres eiout)) (interp (irun e debug ie_init ops) tape)) l.
+Definition op_fstep (l : list Z) : list Z :=
+  run (do e <- pgridworld; do debug <- pbool; do s <- pstate; do a <- paction; do tape <- ptape; pret (e, debug, s, a, tape))
+      (fun '(e, debug, s, a, tape) =>
+         eoutcome (fun out => let '(s', r, t) := out in estate s' ++ erv r ++ ebool t) (interp (functional_step e debug s a) tape)) l.
+Definition op_fobs (l : list Z) : list Z :=
+  run (do e <- pgridworld; do debug <- pbool; do s <- pstate; do tape <- ptape; pret (e, debug, s, tape))
+      (fun '(e, debug, s, tape) => eoutcome estate (interp (functional_observation e debug s) tape)) l.
 Definition op_contains (l : list Z) : list Z :=
   match l with
   | 0 :: r => run (do ss <- psspace; do s <- pstate; pret (ss, s)) (fun '(ss, s) => ebool (ss_contains ss s)) r
@@ -82,5 +89,7 @@ Definition dispatch (l : list Z) : list Z :=
   | 9 :: r => op_reset_leaves r
   | 10 :: r => op_env r
   | 11 :: r => op_contains r
+  | 12 :: r => op_fstep r
+  | 13 :: r => op_fobs r
   | _ => undecodable
   end.
